@@ -155,6 +155,17 @@ func cmdSelectors(args []string) {
 			}
 		}
 	}
+	// ---- a registry that has already been filtered by name and then grows: what it lists now can be selected now
+	for _, ms := range []mockSpec{{Name: "e_verif_late_ocsp", Kind: "ocsp", Source: lint.RFC6960}, {Name: "e_verif_late_crl", Kind: "crl", Source: lint.RFC5280},
+		{Name: "e_verif_late_cert", Kind: "cert", Source: lint.RFC5280}} {
+		registerMock(ms)
+		now := g.Names()
+		listed := contains(now, ms.Name)
+		r, err := g.Filter(lint.FilterOptions{IncludeNames: []string{ms.Name}})
+		emit("name", "lib-include-late", ms.Name, listed, listed, err == nil, err == nil && len(r.Names()) == 1 && r.Names()[0] == ms.Name)
+		r, err = g.Filter(lint.FilterOptions{ExcludeNames: []string{ms.Name}})
+		emit("name", "lib-exclude-late", ms.Name, listed, listed, err == nil, err == nil && len(r.Names()) == len(now)-1 && !contains(r.Names(), ms.Name))
+	}
 	for _, p := range lint.AllProfiles() {
 		missing := []string{}
 		for _, n := range p.LintNames {
